@@ -294,3 +294,44 @@ Example C02_scenario :
          Recv 0 false {| w_mtype := 0; w_code := 69; w_mid := 72; w_token := [6]; w_observe := None; w_rid := 4 |}])  (* retired token *)
   = [[Token 0 [6]; Send 0 0 1 10 [6] None]; [Send 1 3 0 70 [] None]; [Send 0 3 0 71 [] None]; [SetResult 0 3 [6] 0]; [Send 0 3 0 72 [] None]].
 Proof. vm_compute. reflexivity. Qed.
+
+(* ---- round 7 *)
+From Verif Require Import Proofs.C02R7.
+(* run-level form of C02_cancelled_obs_silent: in EVERY state, once the `cancelled` flag of observation q is set, no step of ANY event
+   list produces a Notify for q, and the flag is still set at the end *)
+Theorem C02_cancelled_obs_silent_run : forall s q c es, get_req s q = Some c -> cq_obs_cancelled c = true ->
+  (forall os rid tok from, In os (snd (run s es)) -> ~ In (Notify q rid tok from) os) /\
+  (exists c', get_req (fst (run s es)) q = Some c' /\ cq_obs_cancelled c' = true).
+Proof. exact cancelled_obs_silent_run_lemma. Qed.
+Print Assumptions C02_cancelled_obs_silent_run.
+(* any history: from ANY state s0, after any events es1 that leave q a running observation, `ObsCancel q` silences q in all later steps es2 *)
+Theorem C02_obs_cancel_silences_run : forall s0 es1 es2 q c v,
+  get_req (fst (run s0 es1)) q = Some c -> cq_runner c = Observing v ->
+  forall os rid tok from, In os (skipn (length es1) (snd (run s0 (es1 ++ ObsCancel q :: es2)))) -> ~ In (Notify q rid tok from) os.
+Proof. exact obs_cancel_silences_run_lemma. Qed.
+Print Assumptions C02_obs_cancel_silences_run.
+(* token uniqueness over time (audit gap 4): from EVERY state, along EVERY list of at most 2^64 events, the tokens handed out
+   (the Token outputs, in order) are pairwise different; a token handed out during es1 is not handed out again during es2; one step hands out at most one *)
+Theorem C02_run_tokens_unique : forall s es, Z.of_nat (length es) <= 2 ^ 64 -> NoDup (toks (concat (snd (run s es)))).
+Proof. exact run_tokens_unique_lemma. Qed.
+Print Assumptions C02_run_tokens_unique.
+Theorem C02_token_not_reissued : forall s es1 es2 q1 q2 tok o1 o2, Z.of_nat (length (es1 ++ es2)) <= 2 ^ 64 ->
+  In o1 (snd (run s es1)) -> In (Token q1 tok) o1 ->
+  In o2 (snd (run (fst (run s es1)) es2)) -> In (Token q2 tok) o2 -> False.
+Proof. exact token_not_reissued_lemma. Qed.
+Print Assumptions C02_token_not_reissued.
+Theorem C02_step_one_token : forall s e, (length (toks (snd (step s e))) <= 1)%nat.
+Proof. exact step_one_token_lemma. Qed.
+Print Assumptions C02_step_one_token.
+(* the tie between the table and the tokens on the wire: every entry (tok, _) -> q of the final table was in the initial table, or
+   `Token q tok` was emitted in some step of the run (from `init` the table is empty, so the second alternative holds) *)
+Theorem C02_entry_token_emitted : forall es s og' k q, outgoing (fst (run s es)) = Some og' -> In (k, q) og' ->
+  (exists og, outgoing s = Some og /\ In (k, q) og) \/ exists o, In o (snd (run s es)) /\ In (Token q (fst k)) o.
+Proof. exact entry_token_emitted_lemma. Qed.
+Print Assumptions C02_entry_token_emitted.
+(* non-vacuity of the round-7 statements (concrete histories: with / without ObsCancel; counter wrap-around; table vs. Token outputs) *)
+Example C02_r7_nonvacuous_obs : skipn 3 (snd (run (init 5 10 2000000) (r7_pre ++ r7_post))) = [[Notify 0 3 [6] 0]; [Send 0 0 1 10 [6] (Some 0)]; [Notify 0 4 [6] 0]] /\
+  skipn 3 (snd (run (init 5 10 2000000) (r7_pre ++ ObsCancel 0 :: r7_post))) = [[]; []; [Send 0 0 1 10 [6] (Some 0)]; []].
+Proof. vm_compute. split; reflexivity. Qed.
+Example C02_r7_nonvacuous_tokens : toks (concat (snd (run (init (2 ^ 64 - 2) 10 2000000) r7_tok_script))) = [[255; 255; 255; 255; 255; 255; 255; 255]; []; [1]].
+Proof. vm_compute. reflexivity. Qed.
